@@ -418,3 +418,30 @@ def mc(rep, module, cfg, workers=8, extra=None, timeout=3600, xmx="8g", coverage
         if holes:
             rep.notes.append("coverage hole in %s: actions never taken: %s" % (name, ", ".join(holes)))
     return r
+
+
+def keep_cli_inputs(rep):
+    """CLI properties: make replay files self-contained.  The generated input files (P-Code project + ELF) of every
+    violating case are copied next to the replay file and the recorded paths are redirected to the copies, so that a
+    replay does not depend on the generator version that produced them."""
+    done = set()
+    for _, path in rep.violations:
+        if path in done or not os.path.exists(path):
+            continue
+        done.add(path)
+        r = json.load(open(path))
+        keep = path.replace(".json", ".inputs")
+        os.makedirs(keep, exist_ok=True)
+        for e in r.get("run", []):
+            if "dir" in e and "id" in e:
+                for ext in (".pcode.json", ".elf"):
+                    src = os.path.join(e["dir"], e["id"] + ext)
+                    if os.path.exists(src):
+                        shutil.copy(src, keep)
+                e["dir"] = keep
+                e["use_files"] = True
+            for k in ("pcode", "binary"):
+                if isinstance(e.get(k), str) and os.path.exists(e[k]):
+                    shutil.copy(e[k], keep)
+                    e[k] = os.path.join(keep, os.path.basename(e[k]))
+        json.dump(r, open(path, "w"), indent=1)
